@@ -500,3 +500,300 @@ Section Merge.
         change (st :: l) with ([st] ++ l). rewrite run_list_app, RF. exact RF'.
   Qed.
 End Merge.
+
+(* ------------------------------------------------------------------ the substitution as a bijection *)
+Definition tr (c n x : var) : var :=
+  if String.eqb x c then n else if String.eqb x n then c else x.
+
+Lemma tr_invol c n x : tr c n (tr c n x) = x.
+Proof.
+  unfold tr. destruct (String.eqb_spec x c) as [->|N1].
+  - destruct (String.eqb_spec n c) as [->|N2]; [reflexivity|]. now rewrite String.eqb_refl.
+  - destruct (String.eqb_spec x n) as [->|N2].
+    + now rewrite String.eqb_refl.
+    + destruct (String.eqb_spec x c); [contradiction|]. destruct (String.eqb_spec x n); [contradiction|reflexivity].
+Qed.
+
+Fixpoint swp (m : smap) (x : var) : var :=
+  match m with
+  | [] => x
+  | (c, n) :: m' => tr c n (swp m' x)
+  end.
+
+Lemma swp_inj m : forall x y, swp m x = swp m y -> x = y.
+Proof.
+  induction m as [|[c n] m IH]; intros x y H; [exact H|]. cbn [swp] in H.
+  apply IH. rewrite <- (tr_invol c n (swp m x)), H. apply tr_invol.
+Qed.
+
+Lemma sub_cons c n m x : sub ((c, n) :: m) x = if String.eqb x c then n else sub m x.
+Proof. unfold sub. cbn [slookup]. destruct (String.eqb x c); reflexivity. Qed.
+
+Lemma swp_sub : forall m, NoDup (map fst m ++ map snd m) ->
+  forall x, ~ In x (map snd m) -> swp m x = sub m x.
+Proof.
+  induction m as [|[c n] m IH]; intros ND x Hx; [reflexivity|].
+  cbn [map fst snd app] in ND. inversion ND as [|? ? Hc ND1]; subst.
+  pose proof (NoDup_remove_1 _ _ _ ND1) as ND2. pose proof (NoDup_remove_2 _ _ _ ND1) as Hn.
+  rewrite in_app_iff in Hc, Hn. cbn [In] in Hc.
+  cbn [map snd In] in Hx.
+  assert (Hxn : x <> n) by (intros ->; apply Hx; now left).
+  assert (Hxs : ~ In x (map snd m)) by (intros H; apply Hx; now right).
+  cbn [swp]. rewrite sub_cons, (IH ND2 x Hxs).
+  destruct (String.eqb_spec x c) as [->|Nc].
+  - rewrite sub_notin by tauto. unfold tr. now rewrite String.eqb_refl.
+  - assert (Y : sub m x <> c /\ sub m x <> n).
+    { destruct (in_dec string_dec x (map fst m)) as [I|I].
+      - apply sub_in_snd in I. split; intros E; rewrite E in I; tauto.
+      - rewrite (sub_notin _ _ I). tauto. }
+    unfold tr. destruct (String.eqb_spec (sub m x) c); [tauto|]. destruct (String.eqb_spec (sub m x) n); [tauto|reflexivity].
+Qed.
+
+Lemma swp_store m (sg : store) :
+  (forall c n, In (c, n) m -> sg c = None /\ sg n = None) -> forall x, sg (swp m x) = sg x.
+Proof.
+  induction m as [|[c n] m IH]; intros H x; [reflexivity|]. cbn [swp].
+  destruct (H c n (or_introl eq_refl)) as [Hc Hn].
+  rewrite <- (IH (fun c0 n0 H0 => H c0 n0 (or_intror H0)) x).
+  unfold tr. destruct (String.eqb_spec (swp m x) c) as [->|N1]; [congruence|].
+  destruct (String.eqb_spec (swp m x) n) as [->|N2]; [congruence|reflexivity].
+Qed.
+
+(* ------------------------------------------------------------------ renaming depends on the names only *)
+Lemma ren_ext r1 r2 e :
+  (forall x, In x (vars e ++ funsyms e) -> r1 x = r2 x) -> ren r1 e = ren r2 e.
+Proof.
+  induction e as [z|b| |x|a IH|c t e C T E|o a b A B|o l IH] using expr_ind'; intros H; cbn [ren]; try reflexivity.
+  - rewrite H; [reflexivity|]. cbn. now left.
+  - rewrite IH; [reflexivity|]. exact H.
+  - cbn [vars funsyms] in H. rewrite C, T, E; [reflexivity| | |]; intros x Hx; apply H;
+      rewrite !in_app_iff in *; tauto.
+  - cbn [vars funsyms] in H. rewrite A, B; [reflexivity| |]; intros x Hx; apply H; rewrite !in_app_iff in *; tauto.
+  - cbn [vars funsyms] in H. f_equal.
+    + destruct o; try reflexivity. cbn [ren_nop]. rewrite H; [reflexivity|]. rewrite !in_app_iff. right. left. now left.
+    + apply map_ext_in. intros e He. rewrite Forall_forall in IH. apply IH; [exact He|].
+      intros x Hx. apply H. rewrite !in_app_iff in *. rewrite !in_flat_map. destruct Hx; [left|right; right]; eauto.
+Qed.
+
+Lemma ren_kind_ext r1 r2 k :
+  (forall x, In x (kind_reads true true k ++ kind_writes k ++ loopvars k ++ kind_funsyms k) -> r1 x = r2 x) ->
+  ren_kind true r1 k = ren_kind true r2 k.
+Proof.
+  intros H.
+  destruct k as [x sb rhs loops|xs f args kw|comp tid time e| | | | ]; cbn [ren_kind]; try reflexivity;
+    cbn [kind_reads kind_writes loopvars kind_funsyms] in H.
+  - f_equal.
+    + apply H. rewrite !in_app_iff. right. left. now left.
+    + destruct sb as [ie|]; [|reflexivity]. cbn [option_map]. f_equal. apply ren_ext.
+      intros y Hy. apply H. rewrite !in_app_iff in *. tauto.
+    + apply ren_ext. intros y Hy. apply H. rewrite !in_app_iff in *. tauto.
+    + apply map_ext_in. intros [[i lo] hi] Hl. cbn [fst snd]. f_equal; [f_equal|].
+      * apply H. rewrite !in_app_iff. right. right. left. apply in_map_iff. exists (i, lo, hi). auto.
+      * apply ren_ext. intros y Hy. apply H. rewrite !in_app_iff in *. rewrite !in_flat_map.
+        destruct Hy as [Hy|Hy].
+        -- left. right. right. exists (i, lo, hi). cbn [fst snd]. rewrite in_app_iff. auto.
+        -- right. right. right. right. right. exists (i, lo, hi). cbn [fst snd]. rewrite in_app_iff. auto.
+      * apply ren_ext. intros y Hy. apply H. rewrite !in_app_iff in *. rewrite !in_flat_map.
+        destruct Hy as [Hy|Hy].
+        -- left. right. right. exists (i, lo, hi). cbn [fst snd]. rewrite in_app_iff. auto.
+        -- right. right. right. right. right. exists (i, lo, hi). cbn [fst snd]. rewrite in_app_iff. auto.
+  - f_equal.
+    + apply map_ext_in. intros y Hy. apply H. rewrite !in_app_iff. right. left. exact Hy.
+    + apply H. rewrite !in_app_iff. right. right. right. now left.
+    + apply map_ext_in. intros e He. apply ren_ext. intros y Hy. apply H. rewrite !in_app_iff in *.
+      cbn [In]. rewrite !in_app_iff, !in_flat_map. destruct Hy; [left; left|right; right; right; right; left]; eauto.
+    + apply map_ext_in. intros [n e] He. cbn [fst snd]. f_equal. apply ren_ext. intros y Hy. apply H.
+      rewrite !in_app_iff in *. cbn [In]. rewrite !in_app_iff, !in_flat_map.
+      destruct Hy; [left; right|right; right; right; right; right]; exists (n, e); auto.
+  - f_equal; apply ren_ext; intros y Hy; apply H; rewrite !in_app_iff in *; tauto.
+Qed.
+
+(* footprint of a renamed statement *)
+Lemma FP_ren r st x : FP (ren_stmt r st) x -> exists y, FP st y /\ x = r y.
+Proof.
+  unfold FP, ren_stmt, reads, writes. cbn [skd scond].
+  rewrite kind_reads_ren, vars_ren, kind_writes_ren, loopvars_ren, <- !map_app.
+  intros H. apply in_map_iff in H. destruct H as (y & <- & Hy). eauto.
+Qed.
+Lemma WL_ren r st x : WL (ren_stmt r st) x -> exists y, WL st y /\ x = r y.
+Proof.
+  unfold WL, ren_stmt, writes. cbn [skd].
+  rewrite kind_writes_ren, loopvars_ren, <- !map_app.
+  intros H. apply in_map_iff in H. destruct H as (y & <- & Hy). eauto.
+Qed.
+
+(* ------------------------------------------------------------------ C. run equivalence, repaired shape *)
+(* every loop variable of a statement is used by the statement (body, subscript or bounds) *)
+Definition loops_used (l : list fstmt) : Prop :=
+  forall st, In st l -> incl (loopvars (fkd st)) (freads true true st ++ fwrites st).
+(* x is written (assigned, or used as a loop variable) by a statement of l *)
+Definition wl (l : list fstmt) (x : var) : Prop := exists st, In st l /\ WL (lower st) x.
+
+Lemma in_idents l st x : In st l -> In x (freads true true st ++ fwrites st) -> In x (idents true true l).
+Proof. intros Hs Hx. unfold idents. apply in_flat_map. eauto. Qed.
+
+Lemma FP_idents l st x : loops_used l -> In st l -> FP (lower st) x -> In x (idents true true l).
+Proof.
+  intros Lu Hs H. unfold FP in H. rewrite app_assoc, in_app_iff in H. destruct H as [H|H].
+  - eapply in_idents; [exact Hs|exact H].
+  - eapply in_idents; [exact Hs|]. apply (Lu st Hs). exact H.
+Qed.
+Lemma WL_idents l st x : loops_used l -> In st l -> WL (lower st) x -> In x (idents true true l).
+Proof.
+  intros Lu Hs H. eapply FP_idents; eauto. unfold FP, WL in *. rewrite !in_app_iff in *. tauto.
+Qed.
+
+Section RunEquiv.
+  Variable F : string -> list val -> list (string * val) -> option (list val).
+  Variable g : bool.
+  Variable pred : var -> bool.
+  Variables (clash : list var) (a b : list fstmt) (m : smap).
+  Hypothesis Hm : subst_of true true pred clash a b = Some m.
+  Hypothesis Hc : clash_enum (idents true true a) (idents true true b) clash.
+  Hypothesis La : loops_used a.
+  Hypothesis Lb : loops_used b.
+  (* no function symbol of the second method is renamed or equal to a generated name *)
+  Hypothesis Hfun : forall st f, In st b -> In f (stmt_funsyms st) -> ~ In f (map fst m) /\ ~ In f (map snd m).
+  (* a name both methods use and that is kept is written by neither *)
+  Hypothesis Hnsw : forall x, In x (idents true true a) -> In x (idents true true b) -> pred x = false ->
+                              ~ wl a x /\ ~ wl b x.
+  Variable sg : store.
+  (* the step starts from a store that holds no renamed name and no generated name *)
+  Hypothesis Hsg : forall c n, In (c, n) m -> sg c = None /\ sg n = None.
+
+  Notation ida := (idents true true a).
+  Notation idb := (idents true true b).
+  Notation fused st := (lower (rename_stmt true true (sub m) st)).
+
+  Lemma m_nodup : NoDup (map fst m ++ map snd m).
+  Proof.
+    apply nodup_app.
+    - exact (subst_fst_nodup _ _ _ _ _ _ _ Hm Hc).
+    - exact (subst_snd_nodup _ _ _ _ _ _ _ Hm).
+    - intros x Hf Hs. apply (subst_dom _ _ _ _ _ _ _ Hm Hc) in Hf. apply (subst_fresh _ _ _ _ _ _ _ Hm) in Hs. tauto.
+  Qed.
+
+  Lemma idb_not_fresh x : In x idb -> ~ In x (map snd m).
+  Proof. intros Hx Hs. apply (subst_fresh _ _ _ _ _ _ _ Hm) in Hs. tauto. Qed.
+
+  Lemma swp_idb x : In x idb -> swp m x = sub m x.
+  Proof. intros Hx. apply swp_sub; [exact m_nodup|now apply idb_not_fresh]. Qed.
+
+  Lemma swp_fun st f : In st b -> In f (stmt_funsyms st) -> swp m f = f.
+  Proof.
+    intros Hs Hf. destruct (Hfun st f Hs Hf) as [H1 H2].
+    rewrite swp_sub; [now apply sub_notin|exact m_nodup|exact H2].
+  Qed.
+
+  Lemma fused_swp st : In st b -> fused st = ren_stmt (swp m) (lower st).
+  Proof.
+    intros Hs. unfold rename_stmt, lower, ren_stmt. cbn [fcond fkd sid sdeps scond skd]. f_equal.
+    - apply ren_ext. intros x Hx. rewrite in_app_iff in Hx. destruct Hx as [Hx|Hx].
+      + symmetry. apply swp_idb. eapply in_idents; [exact Hs|]. unfold freads, reads, lower. cbn [scond skd].
+        rewrite !in_app_iff. auto.
+      + rewrite (swp_fun st x Hs) by (unfold stmt_funsyms; rewrite in_app_iff; auto).
+        apply sub_notin. apply (Hfun st x Hs). unfold stmt_funsyms. rewrite in_app_iff. auto.
+    - apply ren_kind_ext. intros x Hx. rewrite !in_app_iff in Hx.
+      destruct Hx as [Hx|[Hx|[Hx|Hx]]].
+      + symmetry. apply swp_idb. eapply in_idents; [exact Hs|]. unfold freads, reads, lower. cbn [scond skd].
+        rewrite !in_app_iff. auto.
+      + symmetry. apply swp_idb. eapply in_idents; [exact Hs|]. unfold fwrites, writes, lower. cbn [skd].
+        rewrite !in_app_iff. auto.
+      + symmetry. apply swp_idb. eapply in_idents; [exact Hs|]. apply (Lb st Hs). exact Hx.
+      + rewrite (swp_fun st x Hs) by (unfold stmt_funsyms; rewrite in_app_iff; auto).
+        apply sub_notin. apply (Hfun st x Hs). unfold stmt_funsyms. rewrite in_app_iff. auto.
+  Qed.
+
+  (* the two footprints *)
+  Definition FB (x : var) : Prop := exists y, In y idb /\ x = sub m y.
+  Definition WB (x : var) : Prop := exists y, wl b y /\ x = sub m y.
+
+  Lemma wl_idents l x : loops_used l -> wl l x -> In x (idents true true l).
+  Proof. intros Lu (st & Hs & H). eapply WL_idents; eauto. Qed.
+
+  (* a name of the first method that is also the image of a name y of the second one: y is kept and shared *)
+  Lemma shared_kept x y : In x ida -> In y idb -> x = sub m y -> x = y /\ pred y = false.
+  Proof.
+    intros Hx Hy E. destruct (string_dec (sub m y) y) as [E'|N].
+    - rewrite E' in E. subst x. split; [reflexivity|].
+      destruct (pred y) eqn:P; [|reflexivity]. exfalso.
+      assert (Rn : sub m y <> y) by (apply (sub_renamed _ _ _ _ _ _ _ Hm Hc); tauto). now apply Rn.
+    - exfalso. destruct (sub_fresh _ _ _ _ _ _ _ Hm Hc y N) as [Fa _]. apply Fa. now rewrite <- E.
+  Qed.
+
+  Lemma HAB x : In x ida -> ~ WB x.
+  Proof.
+    intros Hx (y & Hw & E). pose proof (wl_idents b y Lb Hw) as Hy.
+    destruct (shared_kept x y Hx Hy E) as [-> P]. destruct (Hnsw y Hx Hy P) as [_ Nb]. now apply Nb.
+  Qed.
+  Lemma HBA x : FB x -> ~ wl a x.
+  Proof.
+    intros (y & Hy & E) Hw. pose proof (wl_idents a x La Hw) as Hx.
+    destruct (shared_kept x y Hx Hy E) as [-> P]. destruct (Hnsw y Hx Hy P) as [Na _]. now apply Na.
+  Qed.
+
+  Theorem run_equiv :
+    forall (la lb : list fstmt) (L : list stmt) sA eA sB eB,
+      incl la a -> incl lb b ->
+      merge (map lower la) (map (fun st => fused st) lb) L ->
+      run_list F g (map lower la) (RRun sg []) = RRun sA eA ->
+      run_list F g (map lower lb) (RRun sg []) = RRun sB eB ->
+      exists sF eF,
+        run_list F g L (RRun sg []) = RRun sF eF /\
+        (forall x, In x ida -> sF x = sA x) /\
+        (forall x, In x idb -> sF (sub m x) = sB x) /\
+        merge eA eB eF.
+  Proof.
+    intros la lb L sA eA sB eB Ia Ib M RA RB.
+    assert (Efused : map (fun st => fused st) lb = map (ren_stmt (swp m)) (map lower lb)).
+    { rewrite map_map. apply map_ext_in. intros st Hs. apply fused_swp. now apply Ib. }
+    rewrite Efused in M.
+    (* the second method alone, renamed *)
+    assert (Rsg : R (swp m) sg sg) by (intros x; now apply swp_store).
+    assert (Hsafe : Forall (stmt_fsafe (swp m)) (map lower lb)).
+    { apply Forall_forall. intros st0 H0. apply in_map_iff in H0. destruct H0 as (st & <- & Hs).
+      intros f Hf. apply (swp_fun st f (Ib st Hs)). exact Hf. }
+    pose proof (run_list_ren F g (swp m) (swp_inj m) (map lower lb) (RRun sg []) (RRun sg []) Hsafe (conj Rsg eq_refl)) as Hr.
+    rewrite RB in Hr. destruct (run_list F g (map (ren_stmt (swp m)) (map lower lb)) (RRun sg [])) as [sB' eB'| |] eqn:RB';
+      cbn in Hr; try contradiction. destruct Hr as [HR <-].
+    (* interleaving *)
+    destruct (merge_sim F g (fun x => In x ida) (wl a) FB WB HAB HBA _ _ _ M) with
+      (sA := sg) (sB := sg) (sF := sg) (eA := @nil event) (eB := @nil event) (eF := @nil event)
+      (sA' := sA) (eA' := eA) (sB' := sB') (eB' := eB) as (sF & eF & RF & K1 & K2 & K3); auto.
+    - intros st0 H0. apply in_map_iff in H0. destruct H0 as (st & <- & Hs). split.
+      + intros x Hx. eapply FP_idents; [exact La|exact (Ia st Hs)|exact Hx].
+      + intros x Hx. exists st. split; [exact (Ia st Hs)|exact Hx].
+    - intros st0 H0. apply in_map_iff in H0. destruct H0 as (st1 & <- & H1).
+      apply in_map_iff in H1. destruct H1 as (st & <- & Hs). split.
+      + intros x Hx. apply FP_ren in Hx. destruct Hx as (y & Hy & ->).
+        pose proof (FP_idents b st y Lb (Ib st Hs) Hy) as Hyb. exists y. split; [exact Hyb|now apply swp_idb].
+      + intros x Hx. apply WL_ren in Hx. destruct Hx as (y & Hy & ->).
+        assert (Hw : wl b y) by (exists st; split; [exact (Ib st Hs)|exact Hy]).
+        exists y. split; [exact Hw|]. apply swp_idb. now apply (wl_idents b y Lb).
+    - constructor.
+    - exists sF, eF. repeat split; auto.
+      + intros x Hx. apply K1. now apply HAB.
+      + intros x Hx. rewrite K2.
+        * rewrite <- (swp_idb x Hx). apply HR.
+        * apply HBA. exists x. auto.
+  Qed.
+
+  (* in particular the persistent variables (those the predicate keeps) of the second method *)
+  Corollary run_equiv_kept :
+    forall (la lb : list fstmt) (L : list stmt) sA eA sB eB,
+      incl la a -> incl lb b ->
+      merge (map lower la) (map (fun st => fused st) lb) L ->
+      run_list F g (map lower la) (RRun sg []) = RRun sA eA ->
+      run_list F g (map lower lb) (RRun sg []) = RRun sB eB ->
+      exists sF eF,
+        run_list F g L (RRun sg []) = RRun sF eF /\
+        (forall x, In x ida -> sF x = sA x) /\
+        (forall x, In x idb -> pred x = false -> sF x = sB x) /\
+        merge eA eB eF.
+  Proof.
+    intros la lb L sA eA sB eB Ia Ib M RA RB.
+    destruct (run_equiv la lb L sA eA sB eB Ia Ib M RA RB) as (sF & eF & RF & K1 & K2 & K3).
+    exists sF, eF. repeat split; auto. intros x Hx P.
+    rewrite <- (sub_kept _ _ _ _ _ _ _ Hm Hc x P) at 1. now apply K2.
+  Qed.
+End RunEquiv.
